@@ -492,9 +492,9 @@ pub proof fn new_waitlog() -> (tracked r: WaitLog) ensures r.st.is_none() { unim
 C = 'src/core.rs'
 
 RSP_RW = [
-    Rw(r'unsafe \{[^{}]*?libc::signal\([^{}]*?\}', 'vx_reset_child_signals();', regex=True, rule='R8', why='libc::signal(SIGTSTP/SIGQUIT, SIG_DFL) in the child: shim, no descriptor effect'),
     Rw('libc::signal(libc::SIGPIPE, libc::SIG_IGN);', 'vx_sigpipe(true, Tracked(&mut sg));', required=False, rule='R8', why='signal disposition while the here-string is written: shim, no descriptor effect'),
     Rw('libc::signal(libc::SIGPIPE, libc::SIG_DFL);', 'vx_sigpipe(false, Tracked(&mut sg));', required=False, rule='R8'),
+    Rw(r'unsafe \{[^{}]*?libc::signal\([^{}]*?\}', 'vx_reset_child_signals();', regex=True, rule='R8', why='libc::signal(SIGTSTP/SIGQUIT, SIG_DFL) in the child: shim, no descriptor effect'),
     Rw("text.push('\\n');", 'vx_push_nl(&mut text);', required=False, rule='R12'),
     Rw('text.as_bytes()', 'vx_as_bytes(&text)', required=False, rule='R12'),
     Rw(r'Err\(ref e\) if e\.kind\(\) == std::io::ErrorKind::BrokenPipe => \{\}', '', regex=True, required=False, rule='R10', why='EPIPE arm of the here-string write: same (empty) effect as the general arm for the descriptor model'),
